@@ -487,7 +487,7 @@ def freezeLoop (o : MObj) : List Name → MObj × Bool
     global.go:191-199 newNodeFunction (prototype 0o100, constructor 0o101), type_function.go:115-144
     newNodeFunctionObject (name 0o000, length 0o000, caller accessor mode 0o000, in this order),
     type_error.go:3-24 newErrorObject (message 0o101, stack accessor mode 0o001), global.go:174-179 newError
-    (`new Error` also gets an own `name` 0o101; the NativeError constructors do not),
+    (only a custom error class gets an own `name`),
     type_regexp.go newRegExpObject (global, ignoreCase, multiline 0o000, lastIndex 0o100, source 0o000),
     type_date.go (no own properties).  All are classObject objects. -/
 def nativeObj (k : Kind) (a : Addr) : MObj :=
@@ -499,7 +499,7 @@ def nativeObj (k : Kind) (a : Addr) : MObj :=
   | .terr => ⟨none, true,
       [(8, ⟨.val 997, ⟨.on, .off, .on⟩⟩), (9, ⟨.gs (.fn 900) .nil, ⟨.off, .off, .on⟩⟩)]⟩
   | .err => ⟨none, true,
-      [(8, ⟨.val 997, ⟨.on, .off, .on⟩⟩), (9, ⟨.gs (.fn 900) .nil, ⟨.off, .off, .on⟩⟩), (6, ⟨.val 997, ⟨.on, .off, .on⟩⟩)]⟩
+      [(8, ⟨.val 997, ⟨.on, .off, .on⟩⟩), (9, ⟨.gs (.fn 900) .nil, ⟨.off, .off, .on⟩⟩)]⟩
   | .regexp => ⟨none, true,
       [(12, ⟨.val 996, ⟨.off, .off, .off⟩⟩), (13, ⟨.val 995, ⟨.off, .off, .off⟩⟩), (14, ⟨.val 995, ⟨.off, .off, .off⟩⟩),
        (10, ⟨.val 1, ⟨.on, .off, .off⟩⟩), (11, ⟨.val 997, ⟨.off, .off, .off⟩⟩)]⟩
@@ -689,17 +689,25 @@ def argGet (s : ArgState MProp) (n : Name) : Val :=
 
 def listSet (l : List α) (i : Nat) (x : α) : List α := l.set i x
 
-/-- type_arguments.go:80 argumentsDefineOwnProperty; (state, accepted) -/
+/-- type_arguments.go:80 argumentsDefineOwnProperty (with the 10.6 step 5 unmapping); (state, accepted) -/
 def argDefineOwn (s : ArgState MProp) (n : Name) (d : MProp) : ArgState MProp × Bool :=
   match argMapped s n with
-  | some _ =>
-    match defineOwn s.o n d with
+  | some mapped =>
+    let unmap0 := d.isAccessorDescriptor
+    let byWritable := !unmap0 && d.writeSet && !d.writable
+    let unmap := unmap0 || byWritable
+    let d1 : MProp := if byWritable then (match d.value with | .nil => { d with value := .val mapped } | _ => d) else d
+    match defineOwn s.o n d1 with
     | none => (s, false)
     | some o' =>
       let s1 := { s with o := o' }
-      match d.value, argIndex n with
-      | .val v, some i => ({ s1 with env := s1.env.set i v }, true)      -- argumentsObject.put
-      | _, _ => (s1, true)
+      let s2 := match d1.value, argIndex n with
+        | .val v, some i => { s1 with env := s1.env.set i v }      -- argumentsObject.put
+        | _, _ => s1
+      let s3 := match argIndex n with
+        | some i => if unmap then { s2 with map := s2.map.set i false } else s2   -- argumentsObject.delete
+        | none => s2
+      (s3, true)
   | none =>
     match defineOwn s.o n d with
     | none => (s, false)
@@ -835,15 +843,23 @@ def gStep (g : MObj) : GOp → MObj × Outcome × List Call
   | .assign v =>
     -- stash.go:81 setValue: createBinding(name, true, value) when there is no binding, else setBinding
     if !gHas g then (gCreate g true v, .ok, []) else let r := gSet g v; (r.1, .ok, r.2)
-  -- scope.eval (scope.go:11) is never set: `executionContext.eval` is false also in eval code
-  | .varDecl _eval => if !gHas g then (gCreate g false 0, .ok, []) else (g, .ok, [])
+  -- cmpl_evaluate.go: scope.eval is set while an eval program is instantiated
+  | .varDecl eval => if !gHas g then (gCreate g eval 0, .ok, []) else (g, .ok, [])
   | .varInit v =>
     let g1 := if !gHas g then gCreate g false 0 else g
     let r := gSet g1 v
     (r.1, .ok, r.2)
-  | .funDecl _eval =>
-    -- cmpl_evaluate.go:91-96: `// TODO 10.5.5.e`: an existing binding is only assigned to
-    if !gHas g then (gCreate g false fnVal, .ok, []) else let r := gSet g fnVal; (r.1, .ok, r.2)
+  | .funDecl eval =>
+    -- cmpl_evaluate.go cmplFunctionDeclaration, 10.5 step 5.e on the global object
+    match alookup 0 g.props with
+    | none => (gCreate g eval fnVal, .ok, [])
+    | some existing =>
+      if existing.configurable then
+        match defineOwn g 0 ⟨.val 0, ⟨.on, .on, if eval then .on else .off⟩⟩ with
+        | none => (g, .typeError, [])                       -- defineOwnProperty(…, true) would throw
+        | some g1 => let r := gSet g1 fnVal; (r.1, .ok, r.2)
+      else if existing.isAccessorDescriptor || !existing.writable || !existing.enumerable then (g, .typeError, [])
+      else let r := gSet g fnVal; (r.1, .ok, r.2)
   | .del =>
     let r := delete [g] 0 0 false
     (r.1.headD g, r.2.1, [])
